@@ -288,3 +288,54 @@ def bounded_checks(tier, seed):
     return [{"check": "scoping_fixture", "tool": "fixture package imported by CPython: the object bound to every annotated name vs. Griffe's canonical_path (followed through aliases)",
              "bound": "9 modules, packages nested 3 deep, every import form (plain, aliased, dotted, from, relative level 1-3 from modules and __init__ modules), class and module scope",
              "cases": d["cases"], "failing": len(d["bad"]), "wall_s": round(time.time() - t0, 1), "violations": d["bad"]}]
+
+
+EX = "_griffe.expressions:"
+
+
+@contract("C04", "_build_attribute.name_chain", [EX + "_build_attribute", EX + "ExprAttribute.append", EX + "ExprAttribute.last", EX + "ExprAttribute.canonical_path", EX + "ExprAttribute.path"],
+          floor=5, replay="replay_scoping")
+def c_build_attribute(P):
+    """`value.attr`: the new name is linked to the name on its left (so it resolves as <root>.b.c segment by segment); a dotted chain stays one flat chain in
+    source order; a string on the left gives builtin-`str` members; anything else leaves the new name without scope."""
+    parent = SObj("Module", {}, ident=z3.Int("scope_id"), frozen=True)
+    attr = P.fresh_str("attr")
+    which = z3.Int("left_kind")     # 0 dotted chain, 1 name, 2 string literal, 3 other expression
+    P.assume(z3.And(which >= 0, which <= 3))
+    P.witness["left_kind"] = SInt(which)
+    root = SObj("ExprName", {"name": P.fresh_str("root_name"), "parent": parent}, ident=z3.Int("root_id"))
+    if P.branch(which == 0):
+        second = SObj("ExprName", {"name": P.fresh_str("second_name"), "parent": root}, ident=z3.Int("second_id"))
+        left = SObj("ExprAttribute", {"values": [root, second]}, ident=z3.Int("chain_id"))
+    elif P.branch(which == 1):
+        left = root
+    elif P.branch(which == 2):
+        left = P.fresh_str("string_literal")
+    else:
+        left = SObj("ExprCall", {}, ident=z3.Int("call_id"), frozen=True)
+    P.opaque_hooks[EX + "_build"] = lambda P_, a, k: left
+    node = SObj("ast.Attribute", {"value": SObj("ast.expr", {}, frozen=True), "attr": attr}, frozen=True)
+    kind, res = outcome(P, lambda: call(P, EX + "_build_attribute", node, parent))
+    if kind == "raise":
+        P.prove("never_raises", False, exc=P.resolve_cls(res))
+        return
+    P.prove("result_is_an_attribute_chain", isinstance(res, SObj) and P.resolve_cls(res) == "ExprAttribute")
+    vals = res.fields["values"]
+    new = vals[-1]
+    P.prove("chain_ends_with_the_new_name", P.resolve_cls(new) == "ExprName" and new.fields["name"] is attr)
+    if isinstance(left, SObj) and left.cls == "ExprAttribute":
+        P.prove("dotted_chain_stays_one_flat_chain_in_source_order", res is left and len(vals) == 3 and vals[0] is root and vals[1] is second)
+        P.prove("new_name_is_resolved_through_the_name_on_its_left", new.fields["parent"] is second)
+    elif left is root:
+        P.prove("two_names_in_source_order", len(vals) == 2 and vals[0] is root)
+        P.prove("new_name_is_resolved_through_the_name_on_its_left", new.fields["parent"] is root)
+    elif isinstance(left, SStr):
+        P.prove("string_literal_members_are_str_members", len(vals) == 2 and vals[0] is left and new.fields["parent"] == "str")
+    else:
+        P.prove("other_expressions_give_an_unscoped_name", len(vals) == 2 and vals[0] is left and new.fields["parent"] is None)
+    # the chain's paths are those of its last name
+    CP = z3.Function("NAME_CANONICAL_PATH", IntS, StrS)
+    P.attr_hooks[("ExprName", "canonical_path")] = lambda P_, o: SStr(CP(o.ident)) if o.ident is not None else models.NOATTR
+    k2, cp = outcome(P, lambda: P.getattr(res, "canonical_path"))
+    P.prove("chain_canonical_path_is_that_of_its_last_name", k2 == "ok" and new.ident is not None and zstr(cp).eq(CP(new.ident)) if new.ident is not None else k2 == "ok")
+    P.cover("_build_attribute")
